@@ -258,6 +258,12 @@ def run_script(rec, rng, props, hist):
             else:
                 target.priority = n % 256
                 s.add('HMutate', via='obj' if via_obj else 'user', i=idx, key=[], name='priority', v=abstract(n % 256))
+        elif op in ('spoil', 'repair'):
+            o = s.objs[step['i'] - 1]
+            arg = 'ticket' if o.name == 'Queue.Declare' else 'multiple'
+            v = ('x' if o.name == 'Queue.Declare' else None) if op == 'spoil' else (0 if o.name == 'Queue.Declare' else False)
+            setattr(o, arg, v)
+            s.add('HSetAttr', i=step['i'], arg=arg, v=abstract(v))
         elif op == 'marshal':
             out = actions._call(frame.marshal, s.objs[step['i'] - 1], 1)
             s.add('HMarshal', i=step['i'], ch=1, out=out)
